@@ -295,14 +295,17 @@ def r12_6(chk, facts):
     else: chk.ok('R12.6', 'include/jsoncons_ext/jsonpath/token_evaluator.hpp precedence order', {'levels': clean})
 
 def guarded_effects(fn):
-    """{(sorted guard texts with outcome, statement text)} for every return / assignment / declaration of a small pure function."""
+    """{(sorted canonical guards, canonical statement)} for every return / assignment / declaration of a small pure function.
+    Canonical = A.canon: pure local aliases inlined (their declarations disappear), comparisons oriented, negations pushed in."""
     g = C.CFG(fn['body'])
+    al = A.pure_aliases(fn['body'])
     out = set()
     for nd in g.rpo:
         if nd.kind not in ('stmt', 'return') or not isinstance(nd.ast, dict): continue
-        gs = tuple(sorted('%s%s' % ('' if lab else '!', A.text(a)) for a, lab, e in g.guards(nd) if lab in (True, False)))
-        if nd.kind == 'return': out.add((gs, 'return ' + A.text(nd.ast.get('val'))))
-        else: out.add((gs, A.text(nd.ast)))
+        if A.is_alias_decl(nd.ast, al): continue
+        gs = tuple(sorted(set(A.canon(a, al, neg=not lab) for a, lab, e in g.guards(nd) if lab in (True, False))))
+        if nd.kind == 'return': out.add((gs, 'return ' + A.canon(nd.ast.get('val'), al)))
+        else: out.add((gs, A.canon(nd.ast, al) if nd.ast.get('k') != 'DeclStmt' else A.text(nd.ast)))
     return out
 
 def r12_8(chk, tier):
